@@ -49,6 +49,7 @@ type tracer struct {
 	quiet     bool // do not record events (plain runs)
 	preflight bool // count probe calls and sequence results only (budget check before the judged run)
 	count     int
+	topOnly   bool            // record the events of top-level calls only
 	noIndex   bool            // C17: do not learn the Memoize indices (no parse before the measured ones)
 	callLimit int             // C17: abort a run whose Context.CallCount() exceeds this (0: no limit)
 	trees     bool            // render full trees in top-level returns
@@ -181,7 +182,7 @@ func (t *tracer) probe(id int, p parsley.Parser) parser.Func {
 		}
 		top := len(t.stack) == 0
 		t.stack = append(t.stack, pframe{n: id, pos: int(pos)})
-		if !t.quiet {
+		if !t.quiet && (top || !t.topOnly) {
 			e := J{"ev": "call", "n": id, "pos": int(pos), "lrc": t.lrcJ(l), "calls": ctx.CallCount(), "cerr": errJ(ctx.Error()), "bo": bo, "act": act}
 			t.ev = append(t.ev, e)
 		}
@@ -204,7 +205,7 @@ func (t *tracer) probe(id int, p parsley.Parser) parser.Func {
 		} else if (g.K == "named" || (g.K == "seq" && g.Name != "")) && n == nil {
 			t.nfails[[2]int{int(pos), id}] = true
 		}
-		if !t.quiet {
+		if !t.quiet && (top || !t.topOnly) {
 			e := J{"ev": "ret", "n": id, "pos": int(pos), "res": shallow(n), "cp": t.cpJ(cp), "err": errJ(err),
 				"calls": ctx.CallCount(), "cerr": errJ(ctx.Error()), "top": top}
 			if top {
@@ -423,9 +424,16 @@ func fileAt(content []byte, base int) (*text.File, *parsley.FileSet) {
 	}
 	if base%2 == 0 {
 		earlyReaders[f] = text.NewReader(f)
+		if base%4 == 0 {
+			_ = earlyReaders[f].IsEOF(f.Pos(0)) // ... and used before the file has its place
+		}
 	}
 	pad := text.NewFile("pad", make([]byte, base-2))
-	return f, parsley.NewFileSet(pad, f)
+	fs := parsley.NewFileSet(pad, f)
+	if base%3 == 0 {
+		_ = fs.Position(parsley.Pos(1)).String() // a lookup in the earlier file before the parsed one is used (history on the set)
+	}
+	return f, fs
 }
 
 func readerFor(f *text.File) *text.Reader {
